@@ -81,7 +81,7 @@ Cfgs(t) ==
                          an \in BOOL, lo \in {NoB, 1}, hi \in {NoB, 2}, it \in {"none", "int", "str"}}
     [] t = "HookList" -> {[Cfg0 EXCEPT !.an = an, !.lo = lo, !.hi = hi] : an \in BOOL, lo \in {NoB, 1}, hi \in {NoB, 2}}
     [] t \in {"Selector", "ListSelector"} ->
-          {[Cfg0 EXCEPT !.an = an, !.objs = o, !.cos = cos, !.dd = dd] : an \in BOOL, o \in {{"a", "b"}, {"a"}}, cos \in BOOL, dd \in BOOL}
+          {[Cfg0 EXCEPT !.an = an, !.objs = o, !.cos = cos, !.dd = dd] : an \in BOOL, o \in {{"a", "b"}, {"a"}, {"L", "a"}}, cos \in BOOL, dd \in BOOL}      \* "L": an object whose text is 250 characters long, listed first
     [] t = "ClassSelector" -> {[Cfg0 EXCEPT !.an = an, !.cls = c, !.isi = isi] : an \in BOOL, c \in {"A", "AorOther"}, isi \in BOOL}
     [] t = "Color" -> {[Cfg0 EXCEPT !.an = an, !.named = n] : an \in BOOL, n \in BOOL}
 
